@@ -1,5 +1,6 @@
 import PV.Model.Sexp
 import PV.Model.EqHash
+import PV.Model.EqHashOwn
 import PV.Generated.Classes
 import PV.Driver.PickleOps
 import PV.Proofs.Pickle   -- Mathlib-free: `Obj.wf`
@@ -63,7 +64,60 @@ def out1ToSexp : Out1 → Sexp
   | .attrDeleted f => Sexp.mk "attrdel" [Sexp.ofBool f]
   | .bad => Sexp.mk "bad" []
 
+/-- class table and hand-written-method records of the working tree, toy hash functions -/
+def c01OwnCtx (seed : Nat) : OwnCtx := ⟨c01Tbl, Generated.c01OwnEqs, toyParams seed⟩
+
+def c01Bool? : Sexp → Option Bool
+  | .atom "true" => some true
+  | .atom "false" => some false
+  | _ => none
+
+def c01ResChar : Res → Char
+  | .ok true => '1' | .ok false => '0' | .raises => 'R' | .unmodelled => '?'
+
 def handleEqHash : Sexp → Option Sexp
+  | .list (.atom "c01-own" :: os) =>
+    -- every class, hand-written `__eq__` / `__hash__` included, builtin values at top level too:
+    -- `==`, `!=`, hash equality of equal objects, dict lookup, for all ordered pairs
+    match (objOfSexpL? os).map postInitL with
+    | some os =>
+      let X := c01OwnCtx 0
+      if os.any (fun o => !o.wf || o.hasList || !ownShaped X o || !conforms c01Tbl o) then
+        some (Sexp.mk "noclaim" [])
+      else
+      let ps := allPairs os
+      let eq := ps.map fun (a, b) => c01ResChar (ownEq X a b)
+      let ne := ps.map fun (a, b) => c01ResChar (ownNe X a b)
+      let hs := ps.map fun (a, b) =>
+        match ownEq X a b with
+        | .ok true => if hashX X a == hashX X b then '1' else '0'
+        | _ => '-'
+      let fd := ps.map fun (a, b) => c01ResChar (ownFinds X a b)
+      some (Sexp.mk "r" [Sexp.str (String.ofList eq), Sexp.str (String.ofList ne),
+        Sexp.str (String.ofList hs), Sexp.str (String.ofList fd)])
+    | none => some (Sexp.mk "bad-op" [Sexp.str "c01-own"])
+  | .list [.atom "c01-frozen-mode", dbg, c, f] =>
+    -- `setattr` / `delattr` in an interpreter with `__debug__ = dbg`
+    match c01Bool? dbg, c.text, f.text with
+    | some dbg, some c, some f =>
+      some (Sexp.mk "frozen" [Sexp.ofBool ((c01Tbl.inMode Generated.c01FrozenSource dbg).frozenFor c f),
+        Sexp.ofBool (fieldIndex c01Tbl c f).isSome])
+    | _, _, _ => some (Sexp.mk "bad-op" [Sexp.str "c01-frozen-mode"])
+  | .list [.atom "c01-hist-mode", dbg, seed, .list src, .list ops] =>
+    match c01Bool? dbg, seed.nat?, (objOfSexpL? src).map postInitL, ops.mapM op1OfSexp? with
+    | some dbg, some seed, some src, some ops =>
+      if src.any (fun o => !o.wf || o.hasList || ownEqInside o) then some (Sexp.mk "noclaim" []) else
+      let r := run1D Generated.c01FrozenSource dbg c01Tbl (toyParams seed) ⟨⟨Obj.eraseL src, []⟩, []⟩ ops
+      some (.list (r.2.map out1ToSexp))
+    | _, _, _, _ => some (Sexp.mk "bad-op" [Sexp.str "c01-hist-mode"])
+  | .list [.atom "c01-rat-init", n, d] =>
+    match (objOfSexp? n).map postInit, (objOfSexp? d).map postInit with
+    | some n, some d =>
+      (match rationalInit (c01OwnCtx 0) n d with
+       | .stored n' d' => some (Sexp.mk "stored" [objToSexp n', objToSexp d'])
+       | .err k => some (Sexp.mk "err" [.atom k])
+       | .unmodelled => some (Sexp.mk "noclaim" []))
+    | _, _ => some (Sexp.mk "bad-op" [Sexp.str "c01-rat-init"])
   | .list (.atom "c01-exprs" :: es) =>
     -- stock trees: `Expr.pyEq`, the table-driven generated `__eq__` on their objects, hash
     -- equality of equal trees, and whether the objects are instances of the table's classes
@@ -84,7 +138,24 @@ def handleEqHash : Sexp → Option Sexp
     -- the requests carry SOURCE forms (constructor arguments): `postInit` builds the objects
     match (objOfSexpL? os).map postInitL with
     | some os =>
-      if os.any (fun o => !o.wf || o.hasList || ownEqInside o) then some (Sexp.mk "noclaim" []) else
+      if os.any (fun o => !o.wf || o.hasList) then some (Sexp.mk "noclaim" []) else
+      if os.any ownEqInside then
+        -- instances of classes with a hand-written `__eq__` inside: Python's `==` / `hash` with
+        -- those methods in it (lean/PV/Model/EqHashOwn.lean); the first two strings are then the
+        -- answers of `==` and of `not (!=)`
+        let X := c01OwnCtx 0
+        let ps := allPairs os
+        let rs := ps.map fun (a, b) => (ownEq X a b, ownNe X a b)
+        let decided := rs.all fun r => match r with
+          | (.ok _, .ok _) => true
+          | _ => false
+        if os.any (fun o => !ownShaped X o) || !decided then some (Sexp.mk "noclaim" []) else
+        let eq := rs.map fun r => r.1 == .ok true
+        let ne := rs.map fun r => r.2 == .ok false
+        let hs := (ps.zip eq).map fun ((a, b), e) => hashMark e (hashX X a) (hashX X b)
+        some (Sexp.mk "r" [bitStr eq, bitStr ne, Sexp.str (String.ofList hs),
+          Sexp.str (String.ofList hs), Sexp.ofBool (os.all fun o => conforms c01Tbl o)])
+      else
       let P := toyParams 0
       let ps := allPairs os
       let py := ps.map fun (a, b) => a.pyEq b
